@@ -1,11 +1,71 @@
+(* C12 -- Generated trees are well-formed and have the documented shape.
+   Only statements; every proof is [exact] of a lemma of Tree/GenProofs.v. *)
 From Coq Require Import List Arith.
 Import ListNotations.
-From Onet Require Import Tree.Gen.
+From Onet Require Import Tree.Gen Tree.GenProofs.
+
+(* The n-ary generator (and hence the binary and star generators) returns, in
+   creation = breadth-first order, exactly the closed form: node k >= 1 sits on
+   roster member (k + root) mod n and hangs off node (k-1)/N. *)
+Theorem c12_nary_shape : forall n N root, 1 <= N -> 1 <= n ->
+  (root = RNil \/ exists k, root = RIdx k /\ k < n) ->
+  gen_nary n N root = GTree (nary_spec n N (nary_root root)).
+Proof. exact nary_shape. Qed.
+Print Assumptions c12_nary_shape.
+
+(* ... and that closed form is a well-formed rooted tree: n nodes, the requested
+   root first, parent links pointing to earlier nodes, node p owning exactly the
+   children N*p+1..N*p+N (at most N, levels filled breadth-first), roster
+   positions in range and a bijection with the roster. *)
+Theorem c12_nary_wellformed : forall n N root, 1 <= N -> 1 <= n -> root < n ->
+  let l := nary_spec n N root in
+  length l = n /\
+  nth_error l 0 = Some (root, 0) /\
+  (forall k, 1 <= k -> k < n ->
+     nth_error l k = Some ((k + root) mod n, (k - 1) / N) /\ (k - 1) / N < k /\ (k + root) mod n < n) /\
+  (forall p k, 1 <= k -> ((k - 1) / N = p <-> N * p + 1 <= k <= N * p + N)) /\
+  (forall a b, a < n -> b < n -> (a + root) mod n = (b + root) mod n -> a = b) /\
+  (forall r, r < n -> exists k, k < n /\ (k + root) mod n = r).
+Proof. exact nary_spec_wellformed. Qed.
+Print Assumptions c12_nary_wellformed.
+
+Theorem c12_binary_star_special_cases : forall n,
+  gen_binary n = gen_nary n 2 RNil /\ gen_star n = gen_nary n (n - 1) RNil /\
+  (2 <= n -> gen_star n = GTree ((0, 0) :: map (fun k => (k mod n, 0)) (seq 1 (n - 1)))).
+Proof. exact binary_star_special. Qed.
+Print Assumptions c12_binary_star_special_cases.
 
 Theorem c12_bad_root_none : forall n N k, n <= k ->
   gen_nary n N RForeign = GNone /\ gen_nary n N (RIdx k) = GNone.
-Proof.
-  intros n N k H; split; [reflexivity|]. unfold gen_nary.
-  destruct (k <? n) eqn:E; [apply Nat.ltb_lt in E; exfalso; apply (Nat.lt_irrefl k); eapply Nat.lt_le_trans; eauto|reflexivity].
-Qed.
+Proof. exact bad_root_none. Qed.
 Print Assumptions c12_bad_root_none.
+
+(* big generator: whenever it returns, it returns exactly [nodes] nodes.
+   (Partial: that it always returns, that all levels but the last are full and
+   that nodes = roster size uses every member once are checked on every
+   observation by the verified checker of Corr/C12.v, not proved here.) *)
+Theorem c12_big_count_partial : forall hosts N nodes l, 1 <= N -> 1 <= nodes ->
+  gen_big hosts N nodes = GTree l -> length l = nodes.
+Proof. exact gen_big_count. Qed.
+Print Assumptions c12_big_count_partial.
+
+(* node ids are a function [idf] of the member placed on the node: if every
+   member occupies at most one node, ids are pairwise distinct or [idf] collides *)
+Theorem c12_ids_distinct : forall (idf : nat -> nat) (l : list (nat * nat)),
+  NoDup (map fst l) ->
+  NoDup (map idf (map fst l)) \/
+  exists a b, In a (map fst l) /\ In b (map fst l) /\ a <> b /\ idf a = idf b.
+Proof. exact ids_distinct_or_collision. Qed.
+Print Assumptions c12_ids_distinct.
+
+(* F14: the big generator repeats members, hence ids, whatever the id function *)
+Theorem c12_big_repeats_ids_refuted :
+  exists hosts N nodes l, gen_big hosts N nodes = GTree l /\ length l = 7 /\ length hosts = 3 /\
+    forall idf : nat -> nat, ~ NoDup (map idf (map fst l)).
+Proof. exact big_repeats_ids. Qed.
+Print Assumptions c12_big_repeats_ids_refuted.
+
+Example c12_nary_example :
+  gen_nary 7 2 (RIdx 3) = GTree [(3,0); (4,0); (5,0); (6,1); (0,1); (1,2); (2,2)].
+Proof. exact nary_example. Qed.
+Print Assumptions c12_nary_example.
